@@ -695,4 +695,330 @@ theorem withServicesDisabled_spec {p : Proj} (h : Partition p) (names : List Str
     rw [lookup_withServicesDisabled_disabled_old names hk]
     exact lookup_of_mem h.2.1 hkv
 
+/-! ## pruning -/
+
+theorem lookup_pick_aux (m : AL String) (req : List String) (acc : AL String) (k : String) :
+    lookup k (req.foldl (pickStep m) acc) =
+      if k ∈ req then (match lookup k m with | some v => some v | none => lookup k acc) else lookup k acc := by
+  induction req generalizing acc with
+  | nil => simp
+  | cons r rs ih =>
+    simp only [List.foldl_cons, ih, List.mem_cons]
+    unfold pickStep
+    by_cases h1 : k ∈ rs
+    · simp only [h1, or_true, if_true]
+      cases hm : lookup k m with
+      | some v => rfl
+      | none =>
+        simp only []
+        cases hr : lookup r m with
+        | none => rfl
+        | some w =>
+          simp only [lookup_insert]
+          split
+          · subst_vars; simp [hm] at hr
+          · rfl
+    · simp only [h1, or_false, if_false]
+      cases hr : lookup r m with
+      | none =>
+        simp only []
+        split
+        · subst_vars; simp [hr]
+        · rfl
+      | some w =>
+        simp only [lookup_insert]
+        split
+        · subst_vars; simp [hr]
+        · rfl
+
+theorem lookup_pick (req : List String) (m : AL String) (k : String) :
+    lookup k (pick req m) = if k ∈ req then lookup k m else none := by
+  unfold pick
+  rw [lookup_pick_aux]
+  split
+  · cases lookup k m <;> rfl
+  · rfl
+
+theorem nodup_pick (req : List String) (m : AL String) : (keys (pick req m)).Nodup := by
+  unfold pick
+  suffices ∀ acc : AL String, (keys acc).Nodup →
+      (keys (req.foldl (pickStep m) acc)).Nodup from
+    this [] List.nodup_nil
+  induction req with
+  | nil => exact fun _ h => h
+  | cons r rs ih =>
+    intro acc h
+    simp only [List.foldl_cons]
+    apply ih
+    unfold pickStep
+    cases lookup r m with
+    | none => exact h
+    | some v => exact nodup_insert h
+
+theorem restricted_pick (req : List String) (m : AL String) : Restricted req m (pick req m) := by
+  refine ⟨nodup_pick req m, fun kv hkv => ?_, fun kv hkv hr => ?_⟩
+  · have := lookup_of_mem (nodup_pick req m) (show (kv.1, kv.2) ∈ _ from hkv)
+    rw [lookup_pick] at this
+    split at this
+    · exact ⟨by assumption, this⟩
+    · cases this
+  · rw [lookup_pick, if_pos hr, lookup_isSome]
+    exact mem_keys_of_mem hkv
+
+theorem volSources_eq (s : Svc) : volSources s = volRefs s := by
+  unfold volSources volRefs
+  congr 1
+  apply List.filter_congr
+  intro v _
+  by_cases a : v.1 = "volume" <;> by_cases b : v.2 = "" <;> simp [a, b]
+
+theorem secretSources_eq (s : Svc) : secretSources s = secretRefs s := by
+  unfold secretSources secretRefs
+  cases s.build <;> rfl
+
+theorem withoutUnnecessaryResources_spec (p : Proj) : PruneSpec p (withoutUnnecessaryResources p) := by
+  refine ⟨rfl, rfl, rfl, restricted_pick _ _, ?_, ?_, restricted_pick _ _⟩
+  · have : referenced p volRefs = p.services.flatMap (fun kv => volSources kv.2) := by
+      unfold referenced; congr; funext kv; exact (volSources_eq _).symm
+    rw [this]; exact restricted_pick _ _
+  · have : referenced p secretRefs = p.services.flatMap (fun kv => secretSources kv.2) := by
+      unfold referenced; congr; funext kv; exact (secretSources_eq _).symm
+    rw [this]; exact restricted_pick _ _
+
+/-! ## selection: closed form of the loop -/
+
+def nonSelected (set : List String) (l : AL Svc) : List String := (l.filter (fun kv => kv.1 ∉ set)).map Prod.fst
+def selectedPruned (set : List String) (l : AL Svc) : AL Svc :=
+  (l.filter (fun kv => kv.1 ∈ set)).map (fun kv => (kv.1, pruneDeps set kv.2))
+
+theorem selectFold_eq (set : List String) (l : AL Svc) (c : Proj) (e : AL Svc) :
+    l.foldl (selectStep set) (c, e) =
+      (withServicesDisabled c (nonSelected set l), insertAll (selectedPruned set l) e) := by
+  induction l generalizing c e with
+  | nil => rfl
+  | cons hd t ih =>
+    simp only [List.foldl_cons, ih]
+    unfold selectStep
+    by_cases h : hd.1 ∈ set
+    · simp [h, nonSelected, selectedPruned, insertAll]
+    · simp [h, nonSelected, selectedPruned, withServicesDisabled]
+
+theorem keys_selectedPruned (set : List String) (l : AL Svc) :
+    keys (selectedPruned set l) = keys (l.filter (fun kv => kv.1 ∈ set)) := by
+  unfold selectedPruned; exact keys_map_val (fun _ s => pruneDeps set s) _
+
+/-- what `WithSelectedServices` returns once the walk has produced `set` -/
+def selectResult (p : Proj) (set : List String) : Proj :=
+  { withServicesDisabled p (nonSelected set p.services) with services := selectedPruned set p.services }
+
+theorem withSelectedServices_ok {p : Proj} (h : (keys p.services).Nodup) {names : List String} {pol : Policy}
+    {set : List String} (hn : names ≠ []) (hw : forEachService p names pol = .ok set) :
+    withSelectedServices p names pol = .ok (selectResult p set) := by
+  unfold withSelectedServices
+  have : names.isEmpty = false := by cases names <;> simp_all
+  simp only [this, Bool.false_eq_true, if_false, hw, selectFold_eq]
+  rw [insertAll_append]
+  · rfl
+  · rw [keys_selectedPruned]; exact nodup_filter h
+  · simp
+
+theorem lookup_selectedPruned {set : List String} {l : AL Svc} (nd : (keys l).Nodup) (k : String) :
+    lookup k (selectedPruned set l) = if k ∈ set then (lookup k l).map (pruneDeps set) else none := by
+  unfold selectedPruned
+  rw [lookup_map_val (fun _ s => pruneDeps set s), lookup_filter nd]
+  cases lookup k l with
+  | none => simp
+  | some s => by_cases h : k ∈ set <;> simp [Option.filter, h]
+
+/-! ## the dependency walk computes the closure -/
+
+/-- reflexive-transitive closure of `Edge` -/
+inductive Star (svcs : AL Svc) (pol : Policy) : String → String → Prop
+  | refl (a) : Star svcs pol a a
+  | tail {a b c} : Star svcs pol a b → Edge svcs pol b c → Star svcs pol a c
+
+theorem Star.head {svcs : AL Svc} {pol : Policy} {a b c : String} (e : Edge svcs pol a b) (h : Star svcs pol b c) :
+    Star svcs pol a c := by
+  induction h with
+  | refl => exact .tail (.refl a) e
+  | tail _ e' ih => exact .tail ih e'
+
+theorem reach_of_star {svcs : AL Svc} {pol : Policy} {roots : List String} {r x : String}
+    (hr : r ∈ roots) (hk : r ∈ keys svcs) (h : Star svcs pol r x) : Reach svcs pol roots x := by
+  induction h with
+  | refl => exact .root hr hk
+  | tail _ e ih => exact .step ih e
+
+theorem edge_target_mem {svcs : AL Svc} {pol : Policy} {x y : String} (e : Edge svcs pol x y) : y ∈ keys svcs := by
+  cases pol with
+  | deps => obtain ⟨_, _, _, h⟩ := e; exact h
+  | dependents => obtain ⟨_, s, h, _⟩ := e; exact keys_of_lookup h
+  | ignore => exact e.elim
+
+theorem mem_keys_dependents {svcs : AL Svc} {x y : String} :
+    y ∈ keys (dependents svcs x) ↔ ∃ s, (y, s) ∈ svcs ∧ x ∈ keys s.deps := by
+  unfold dependents
+  rw [mem_keys]
+  simp only [List.mem_filterMap, Option.map_eq_some_iff, Prod.mk.injEq]
+  constructor
+  · rintro ⟨v, ⟨k, s⟩, hm, d, hd, rfl, rfl⟩
+    exact ⟨s, hm, keys_of_lookup hd⟩
+  · rintro ⟨s, hm, hx⟩
+    obtain ⟨d, hd⟩ := Option.isSome_iff_exists.1 (lookup_isSome.2 hx)
+    exact ⟨d, (y, s), hm, d, hd, rfl, rfl⟩
+
+theorem edge_iff_next {svcs : AL Svc} (nd : (keys svcs).Nodup) {pol : Policy} {n y : String} {s : Svc}
+    (hs : lookup n svcs = some s) : Edge svcs pol n y ↔ y ∈ keys (nextOf svcs pol n s) ∧ y ∈ keys svcs := by
+  cases pol with
+  | deps =>
+    simp only [Edge, nextOf, hs, Option.some.injEq, exists_eq_left']
+  | dependents =>
+    simp only [Edge, nextOf, mem_keys_dependents]
+    constructor
+    · rintro ⟨_, s', h1, h2⟩
+      exact ⟨⟨s', mem_of_lookup h1, h2⟩, keys_of_lookup h1⟩
+    · rintro ⟨⟨s', h1, h2⟩, _⟩
+      exact ⟨keys_of_lookup hs, s', lookup_of_mem nd h1, h2⟩
+  | ignore => simp [Edge, nextOf]
+
+structure Post (svcs : AL Svc) (pol : Policy) (roots seen seen' : List String) : Prop where
+  mono : ∀ x ∈ seen, x ∈ seen'
+  sound : ∀ x ∈ seen', x ∈ seen ∨ ∃ r ∈ roots, r ∈ keys svcs ∧ Star svcs pol r x
+  roots : ∀ r ∈ roots, r ∈ keys svcs → r ∈ seen'
+  closed : ∀ x ∈ seen', x ∉ seen → ∀ y, Edge svcs pol x y → y ∈ seen'
+
+theorem Post.weaken_roots {svcs : AL Svc} {pol : Policy} {n : String} {ns seen r : List String}
+    (h : Post svcs pol ns seen r) (hn : n ∈ keys svcs → n ∈ r) : Post svcs pol (n :: ns) seen r where
+  mono := h.mono
+  sound x hx := (h.sound x hx).imp id fun ⟨a, ha, hb⟩ => ⟨a, List.mem_cons_of_mem _ ha, hb⟩
+  roots a ha hk := by
+    rcases List.mem_cons.1 ha with e | e
+    · exact e ▸ hn (e ▸ hk)
+    · exact h.roots a e hk
+  closed := h.closed
+
+theorem loop_post {svcs : AL Svc} (nd : (keys svcs).Nodup) {pol : Policy}
+    {rec : List String → AL Dep → List String → Walk}
+    (hrec : ∀ ns d seen r, ns ≠ [] → rec ns d seen = .ok r → Post svcs pol ns seen r) :
+    ∀ ns seen r, walkLoop rec svcs pol ns seen = .ok r → Post svcs pol ns seen r := by
+  intro ns
+  induction ns with
+  | nil =>
+    intro seen r h
+    simp only [walkLoop, Walk.ok.injEq] at h
+    subst h
+    exact ⟨fun _ h => h, fun _ h => .inl h, (fun _ h => nomatch h), fun x hx hn => absurd hx hn⟩
+  | cons n ns ih =>
+    intro seen r h
+    unfold walkLoop at h
+    cases hs : lookup n svcs with
+    | none =>
+      simp only [hs] at h
+      exact (ih _ _ h).weaken_roots fun hk => absurd hk (lookup_eq_none.1 hs)
+    | some s =>
+      simp only [hs] at h
+      by_cases hseen : n ∈ seen
+      · simp only [hseen, if_true] at h
+        have P := ih _ _ h
+        exact P.weaken_roots fun _ => P.mono n hseen
+      · simp only [hseen, if_false] at h
+        by_cases hd : (nextOf svcs pol n s).isEmpty = true
+        · simp only [hd, if_true] at h
+          have P := ih _ _ h
+          have hnr : n ∈ r := P.mono n (by simp)
+          refine ⟨fun x hx => P.mono x (List.mem_cons_of_mem _ hx), fun x hx => ?_, fun a ha hk => ?_, fun x hx hxs y e => ?_⟩
+          · rcases P.sound x hx with h1 | ⟨a, ha, hb⟩
+            · rcases List.mem_cons.1 h1 with e | e
+              · exact .inr ⟨n, by simp, keys_of_lookup hs, by subst e; exact .refl _⟩
+              · exact .inl e
+            · exact .inr ⟨a, List.mem_cons_of_mem _ ha, hb⟩
+          · rcases List.mem_cons.1 ha with e | e
+            · exact e ▸ hnr
+            · exact P.roots a e hk
+          · by_cases e' : x = n
+            · subst e'
+              have := ((edge_iff_next nd hs).1 e).1
+              rw [List.isEmpty_iff] at hd
+              rw [hd] at this
+              cases this
+            · exact P.closed x hx (by simp [e', hxs]) y e
+        · simp only [hd] at h
+          cases hr : rec (keys (nextOf svcs pol n s)) (nextOf svcs pol n s) (n :: seen) with
+          | noSuchService => simp [hr] at h
+          | outOfFuel => simp [hr] at h
+          | ok seen2 =>
+            simp only [hr, Bool.false_eq_true, if_false] at h
+            have hne : keys (nextOf svcs pol n s) ≠ [] := by
+              intro e
+              apply hd
+              cases hh : nextOf svcs pol n s with
+              | nil => rfl
+              | cons a b => rw [hh] at e; cases e
+            have P1 := hrec _ _ _ _ hne hr
+            have P2 := ih _ _ h
+            have hn2 : n ∈ seen2 := P1.mono n (by simp)
+            refine ⟨fun x hx => P2.mono x (P1.mono x (List.mem_cons_of_mem _ hx)), fun x hx => ?_, fun a ha hk => ?_,
+              fun x hx hxs y e => ?_⟩
+            · rcases P2.sound x hx with h1 | ⟨a, ha, hb⟩
+              · rcases P1.sound x h1 with h2 | ⟨a, ha, hk, hst⟩
+                · rcases List.mem_cons.1 h2 with e | e
+                  · exact .inr ⟨n, by simp, keys_of_lookup hs, by subst e; exact .refl _⟩
+                  · exact .inl e
+                · exact .inr ⟨n, by simp, keys_of_lookup hs, Star.head ((edge_iff_next nd hs).2 ⟨ha, hk⟩) hst⟩
+              · exact .inr ⟨a, List.mem_cons_of_mem _ ha, hb⟩
+            · rcases List.mem_cons.1 ha with e | e
+              · exact e ▸ P2.mono n hn2
+              · exact P2.roots a e hk
+            · by_cases hx2 : x ∈ seen2
+              · by_cases e' : x = n
+                · subst e'
+                  have := (edge_iff_next nd hs).1 e
+                  exact P2.mono y (P1.roots y this.1 this.2)
+                · exact P2.mono y (P1.closed x hx2 (by simp [e', hxs]) y e)
+              · exact P2.closed x hx hx2 y e
+
+theorem walk_post {svcs : AL Svc} (nd : (keys svcs).Nodup) (pol : Policy) :
+    ∀ fuel names parent seen r, walk svcs pol fuel names parent seen = .ok r →
+      Post svcs pol (if names.isEmpty then keys svcs else names) seen r := by
+  intro fuel
+  induction fuel with
+  | zero => intro names parent seen r h; simp [walk] at h
+  | succ f ih =>
+    intro names parent seen r h
+    unfold walk at h
+    simp only [] at h
+    by_cases hf : (if names.isEmpty then keys svcs else names).any (missingFatal svcs parent) = true
+    · rw [if_pos hf] at h; cases h
+    · rw [if_neg hf] at h
+      refine loop_post nd (fun ns d seen r hne hr => ?_) _ _ _ h
+      have := ih ns d seen r hr
+      have e : ns.isEmpty = false := by cases ns <;> simp_all
+      simpa [e] using this
+
+/-- the set recorded by `ForEachService` is exactly the closure of the requested names -/
+theorem forEachService_reach {p : Proj} (nd : (keys p.services).Nodup) {names : List String} (hn : names ≠ [])
+    {pol : Policy} {set : List String} (h : forEachService p names pol = .ok set) (x : String) :
+    x ∈ set ↔ Reach p.services pol names x := by
+  have P := walk_post nd pol _ _ _ _ _ h
+  have e : names.isEmpty = false := by cases names <;> simp_all
+  simp only [e, Bool.false_eq_true, if_false] at P
+  constructor
+  · intro hx
+    rcases P.sound x hx with h1 | ⟨r, hr, hk, hs⟩
+    · cases h1
+    · exact reach_of_star hr hk hs
+  · intro hx
+    induction hx with
+    | root hr hk => exact P.roots _ hr hk
+    | step _ e ih => exact P.closed _ ih (by simp) _ e
+
+theorem forEachService_subset {p : Proj} (nd : (keys p.services).Nodup) {names : List String} (hn : names ≠ [])
+    {pol : Policy} {set : List String} (h : forEachService p names pol = .ok set) :
+    ∀ x ∈ set, x ∈ keys p.services := by
+  intro x hx
+  have := (forEachService_reach nd hn h x).1 hx
+  induction this with
+  | root _ hk => exact hk
+  | step _ e _ => exact edge_target_mem e
+
 end CV.Sel
